@@ -304,7 +304,7 @@ PROPS["C10"] = dict(
     decided=["BOUNDED totality: report and info parsers return (never panic) on every byte string of the stated lengths, incl. empty and truncated records",
              "event type byte accepted iff 0/1"],
     undecided=["AEAD integrity (any bit flip fails decryption): property of the external hpke / aes-gcm crates", "decrypt (GenericArray::from_slice aborts CBMC)",
-               "LengthDelimitedStream framing", "lengths other than the stated boundary lengths"],
+               "LengthDelimitedStream framing", "lengths other than the stated boundary lengths (HybridConversionInfo: only len 0 and 1 close; longer inputs exhaust memory / time in CBMC post-processing of core::str UTF-8 validation)"],
     trusted_base=[], assumptions=[],
     explanation="bounded stand-in for the totality clause: Kani's implicit panic/bounds/unwrap obligations on the real parsers at the decision-boundary lengths; "
                 "not a proof for all lengths; the authenticity clause is undecided",
@@ -317,10 +317,10 @@ K("c10_report_from_bytes_boundary_imp", "C10", "report_hybrid", "report::hybrid"
 K("c10_report_from_bytes_boundary_conv", "C10", "report_hybrid", "report::hybrid", ["EncryptedHybridReport::from_bytes", "EncryptedHybridConversionReport::from_bytes"], "bounded",
   "same for the conversion variant", bound="the two boundary lengths", timeout=900)
 K("c10_impression_info_total", "C10", "report_hybrid_info", "report::hybrid_info", ["HybridImpressionInfo::from_bytes"], "complete", "total on len 0..=2; Err iff empty", min_covers=2)
-for n in (0, 1, 2, 3, 26, 27):
+for n in (0, 1):
     K("c10_conversion_info_total_len%d" % n, "C10", "report_hybrid_info", "report::hybrid_info", ["HybridConversionInfo::from_bytes"], "bounded",
       "returns (never panics); Ok only for NUL-delimited records with a 25-byte tail", bound="len = %d, contents symbolic" % n, timeout=1500,
-      tier=("quick" if n <= 3 else "thorough"), native_test={"file": "c10_parsers.rs", "name": "verif_replay_parsers_total"})
+      tier=("quick" if n == 0 else "thorough"), native_test={"file": "c10_parsers.rs", "name": "verif_replay_parsers_total"})
 
 # ============================================================================ C15
 PROPS["C15"] = dict(
